@@ -221,6 +221,20 @@ def extract_store(src, params):
     return layouts
 
 
+def extract_status_policy(src):
+    """`Store::status`: is an unreadable (EOF / bad format) status file treated as missing?"""
+    m = re.search(r"pub\s+fn\s+status\s*\(&self\)", src)
+    need(m, "store: fn status not found")
+    body = block_at(src, m.end())
+    need("StoredStatus::read(" in body and re.search(r"Ok\(status\)\s*=>\s*Ok\(Some\(status\)\)", body) and
+         re.search(r"Err\(Failed\)", body), "store: status shape changed")
+    m = re.search(r"Err\(err\)\s*if\s*!err\.is_fatal\(\)\s*=>\s*\{(.*?)\}\s*Err\(err\)\s*=>", body, re.S)
+    if m:
+        need(re.search(r"Ok\(None\)\s*$", m.group(1).strip()), "store: status non-fatal arm shape changed")
+        return True
+    return False
+
+
 def extract_state(src):
     fields = struct_fields(src, "RepositoryState")
     impl = impl_of(src, "RepositoryState")
@@ -385,6 +399,7 @@ def main():
     try:
         store = load("src/store.rs")
         layouts += extract_store(store, params)
+        status_none = extract_status_policy(store)
         layouts += extract_state(load("src/collector/rrdp/archive.rs"))
         extract_binio(load("src/utils/binio.rs"), params)
         aparams = {}
@@ -429,6 +444,9 @@ def main():
     out.append("def layouts : List RecLayout := [" + ", ".join(l[0] for l in layouts) + "]")
     out.append("")
     out.append("def pointLayouts : PointLayouts := ⟨storedPointHeader, storedManifest, storedObject⟩")
+    out.append("")
+    out.append("/-- `Store::status` maps an unreadable status file to `Ok(None)`. -/")
+    out.append(f"def statusUnreadableIsNone : Bool := {'true' if status_none else 'false'}")
     out.append("")
     out.append("end RoutinatorModel.Codec.Generated")
     text = "\n".join(out) + "\n"
